@@ -45,6 +45,14 @@ pub struct TplS {
     pub syntax_error: bool,
     /// free text written at the start of the body (makes versions of a template distinguishable)
     pub tag: String,
+    /// the body ends with `{{ hv }}`: with a hostile value for `hv` in the context the render shows
+    /// whether the template is autoescaped
+    #[serde(default)]
+    pub probe: bool,
+    /// (C10 histories) this template reaches the engine through a file and `add_template_file(s)`
+    /// instead of `add_raw_template(s)`; source and summary are the same
+    #[serde(default)]
+    pub via_file: bool,
 }
 
 /// text that no escaper or `upper` filter leaves ambiguous: letters, digits, `_`
@@ -108,6 +116,9 @@ impl TplS {
             Some("test") => s.push_str("{% if 1 is nosuchtest %}{% endif %}"),
             Some("function") => s.push_str("{{ nosuchfn() }}"),
             _ => {}
+        }
+        if self.probe {
+            s.push_str("{{ hv }}");
         }
         s.push('}');
         for c in &self.comps {
